@@ -11,6 +11,8 @@ package util
 // Loop 1 keeps the slice an injective map into [0, n) - i.e. a permutation of 0..n-1 - by swapping.
 //@ func UniqRands(quantity int, maxval int) []int
 //@   props C04
+//   (round 4, area A) no channel operation (checked): queueScanLoop keeps its channel counters across the call
+//@   nochan
 //@   requires quantity >= 0 && maxval >= 0
 //@   ensures[count] len(result) == min(quantity, maxval)
 //@   ensures[range] forall k int :: {result[k]} 0 <= k && k < len(result) ==> 0 <= result[k] && result[k] < maxval
